@@ -766,8 +766,21 @@ Fixpoint closure (es : list (string * string)) (fuel : nat) (seen : list string)
   | O => seen
   | S n => closure es n (fold_left (fun acc x => if mem_s x acc then acc else (acc ++ [x])%list) (flat_map (succs es) seen) seen)
   end.
+Definition reach_from (k : okind) (a : string) : list string := closure (kind_edges k ++ extra_edges k)%list 20 [a].
+Definition reach_table_of (k : okind) : list (string * list string) := map (fun a => (a, reach_from k a)) ("" :: status_universe).
+(** computed once, when this file is compiled against the generated tables *)
+Definition reach_chain := Eval vm_compute in reach_table_of KChain.
+Definition reach_svc := Eval vm_compute in reach_table_of KSvc.
+Definition reach_rule := Eval vm_compute in reach_table_of KRule.
+Definition reach_role := Eval vm_compute in reach_table_of KRole.
+Definition reach_node := Eval vm_compute in reach_table_of KNode.
+Definition reach_table (k : okind) : list (string * list string) :=
+  match k with KChain => reach_chain | KSvc => reach_svc | KRule => reach_rule | KRole => reach_role | KNode => reach_node end.
 Definition reach (k : okind) (a b : string) : bool :=
-  mem_s b (closure (kind_edges k ++ extra_edges k)%list 20 [a]).
+  match alookup String.eqb a (reach_table k) with
+  | Some l => mem_s b l
+  | None => String.eqb a b
+  end.
 
 Definition declared_pair {V} (k : okind) (st : V -> string) (before after : list (N * V)) : bool :=
   forallb (fun e : N * V => match alookup N.eqb (fst e) before with
